@@ -220,6 +220,15 @@ def _depends_on_loop_store(q, fa, val: ast.AST, loop_owner=None) -> bool:
             if isinstance(n, ast.Assign) and len(n.targets) == 1 and isinstance(n.targets[0], ast.Name) and n.targets[0].id not in filled and mentions(n.value):
                 filled.add(n.targets[0].id)
                 grew = True
+            # merged.update(q_metadata) / merged |= q_metadata: the receiver now holds the new keys too
+            recv = arg = None
+            if isinstance(n, ast.Call) and isinstance(n.func, ast.Attribute) and n.func.attr == "update" and isinstance(n.func.value, ast.Name) and len(n.args) == 1:
+                recv, arg = n.func.value.id, n.args[0]
+            elif isinstance(n, ast.AugAssign) and isinstance(n.op, ast.BitOr) and isinstance(n.target, ast.Name):
+                recv, arg = n.target.id, n.value
+            if recv is not None and recv not in filled and mentions(arg):
+                filled.add(recv)
+                grew = True
         if not grew:
             break
     return mentions(val)
